@@ -11,6 +11,8 @@ to the table found in the source by the generated, per-feature `decide` obligati
 `Generated/FeaturesObl.lean`, and the code-generation sites to the flags by the per-site
 obligations of `Generated/FeatureSites.lean`.
 -/
+set_option linter.unusedSimpArgs false
+
 namespace BindgenModel.Features
 open BindgenModel.Generated
 
